@@ -238,6 +238,11 @@ def check(rep, ctx):
                   message=f"{len(probs)} of {pa_cases} definition x version cases: " + "; ".join(probs[:3]) +
                           (" -- an array of primitives that the definition declares nullable (nullableVersions) is generated as a non-nullable "
                            "tuple[T, ...]" if aspect == "nullability" else ""), file=gsrc.rel, line=0)
+    from ..gen_tables import field_validator_rows
+    R19 = rep.rule("C16-G19-field-validators", "the field model's validators accept exactly the key combinations of the definition format (tag and "
+                   "taggedVersions together or not at all; versions falls back to taggedVersions)", floor=6)
+    for row in field_validator_rows(ctx):
+        rep.check(R19, row["ok"], construct="codegen.parser:_BaseField", stmt=row["case"], message=row["message"], file=psrc.rel, line=0)
     R8 = rep.rule("C16-G8-field", "format_dataclass_field: an explicit default is emitted as given whatever the tagging/ignorability; "
                   "metadata carries the kafka type and the tag iff tagged", floor=40,
                   necessary_because="ApiVersionsResponse.FinalizedFeaturesEpoch is tagged, ignorable and has default -1: it must stay -1")
